@@ -572,6 +572,10 @@ class NodeOutputPattern(ValuePattern):
         self._output_index = output_index
 
     def clone(self, node_map: dict[NodePattern, NodePattern]) -> NodeOutputPattern:
+        if self._producer not in node_map:
+            # The producer was created by another opset builder (e.g. torch_module_op), so it is not
+            # in GraphPattern._nodes and has not been copied yet: copy it now (never swapped).
+            self._producer.clone(node_map, swap=False)
         return node_map[self._producer].outputs[self._output_index]
         # return NodeOutputPattern(node_map[self._producer], self._output_index, self._name)
 
